@@ -295,7 +295,9 @@ static int _el_addbytes(const void *buffer, size_t size, void *el_buf_ptr) {
         }
     }
 
-    memcpy(el_buf->buf + el_buf->length, buffer, size);
+    if(size) {	/* (buffer) may be NULL for an empty string */
+        memcpy(el_buf->buf + el_buf->length, buffer, size);
+    }
 
     el_buf->length += size;
     return 0;
